@@ -114,4 +114,162 @@ func runC08(ctx *Ctx) {
 	c08Projects(ctx, r)
 }
 
-func c08Projects(ctx *Ctx, r *Rng) {}
+
+// ---- textual inclusion: cut a document into files
+
+type cutter struct {
+	r     *Rng
+	files map[string][]byte
+	n     int
+}
+
+func joinRel(dir, name string) string {
+	if dir == "" {
+		return name
+	}
+	return dir + "/" + name
+}
+
+// place stores content as a new file reachable from a file in directory `fromDir`; returns the INCLUDE
+// parameter (relative to fromDir). Names are deliberately reused across directories.
+func (c *cutter) place(fromDir string, content string, depth int) string {
+	c.n++
+	subdirs := []string{"", "sub", "sub/deep", "other", "a/b/c"}
+	names := []string{"inc.jst", "part.jst", "body.jst", "x.jst"}
+	for try := 0; try < 50; try++ {
+		rel := joinRel(subdirs[c.r.Intn(len(subdirs))], names[c.r.Intn(len(names))])
+		if try > 20 {
+			rel = fmt.Sprintf("gen%d/%s", c.n, names[c.r.Intn(len(names))])
+		}
+		full := joinRel(fromDir, rel)
+		if _, taken := c.files[full]; taken {
+			continue
+		}
+		dir := ""
+		if i := strings.LastIndex(full, "/"); i >= 0 {
+			dir = full[:i]
+		}
+		c.files[full] = nil // reserve
+		c.files[full] = []byte(c.cutBlocks(dir, splitTopBlocks(content), depth+1))
+		return rel
+	}
+	return ""
+}
+
+// splitTopBlocks splits plain-style text into its top-level blocks (a line with no indentation that starts
+// with an upper-case letter or a digit begins a block; bodies at column 0 start with { [ " / or } ]).
+func splitTopBlocks(text string) []string {
+	var blocks []string
+	var cur []string
+	for _, l := range strings.SplitAfter(text, "\n") {
+		if l == "" {
+			continue
+		}
+		starts := len(l) > 0 && ((l[0] >= 'A' && l[0] <= 'Z') || (l[0] >= '0' && l[0] <= '9'))
+		if starts && len(cur) > 0 {
+			blocks = append(blocks, strings.Join(cur, ""))
+			cur = nil
+		}
+		cur = append(cur, l)
+	}
+	if len(cur) > 0 {
+		blocks = append(blocks, strings.Join(cur, ""))
+	}
+	return blocks
+}
+
+// cutBlocks re-assembles the blocks, moving random runs of complete blocks — and the complete children of an
+// implicitly nested directive — into other files.
+func (c *cutter) cutBlocks(dir string, blocks []string, depth int) string {
+	var b strings.Builder
+	for i := 0; i < len(blocks); {
+		if depth < 3 && c.r.Chance(1, 3) && !strings.HasPrefix(blocks[i], "JSIGHT") {
+			run := 1 + c.r.Intn(3)
+			if i+run > len(blocks) {
+				run = len(blocks) - i
+			}
+			if rel := c.place(dir, strings.Join(blocks[i:i+run], ""), depth); rel != "" {
+				b.WriteString("INCLUDE " + rel + "\n")
+				i += run
+				continue
+			}
+		}
+		blk := blocks[i]
+		// children of an implicitly nested URL / method / INFO / SERVER block: everything after its first line
+		first := strings.SplitAfterN(blk, "\n", 2)
+		kw := keywordOf(first[0])
+		if depth < 3 && len(first) == 2 && first[1] != "" && c.r.Chance(1, 4) && (kw == "URL" || kw == "INFO" || kw == "SERVER") && !strings.Contains(first[1], "Description") {
+			// dedent the children by their own indentation (2 in the plain style)
+			var kids []string
+			for _, l := range strings.SplitAfter(first[1], "\n") {
+				kids = append(kids, strings.TrimPrefix(l, "  "))
+			}
+			if rel := c.place(dir, strings.Join(kids, ""), depth); rel != "" {
+				b.WriteString(first[0] + "  INCLUDE " + rel + "\n")
+				i++
+				continue
+			}
+		}
+		b.WriteString(blk)
+		i++
+	}
+	return b.String()
+}
+
+func c08Projects(ctx *Ctx, r *Rng) {
+	n := ctx.Budget(400, 20000)
+	cases := 0
+	for i := 0; i < n && len(ctx.Violations) < 10; i++ {
+		m := GenModel(r)
+		base, _ := m.Render(PlainStyle(), true)
+		b0 := RunProject(SingleFile(base), false)
+		if !b0.Accepted() {
+			continue
+		}
+		c := &cutter{r: r.Fork(), files: map[string][]byte{}}
+		root := c.cutBlocks("", splitTopBlocks(string(base)), 0)
+		if len(c.files) == 0 {
+			continue
+		}
+		c.files["root.jst"] = []byte(root)
+		p := Project{Files: c.files, Root: "root.jst"}
+		b1 := RunProject(p, false)
+		cases++
+		var key []byte
+		for k, v := range c.files {
+			key = append(append(key, k...), v...)
+		}
+		ctx.Cov.Count(key, len(c.files) >= 2)
+		ctx.Cov.Hit(fmt.Sprintf("project with %d files", len(c.files)))
+		in := projectInput(p)
+		in["op"] = "project"
+		in["uncut"] = hx(base)
+		if len(ctx.Cov.Samples) < 4 && len(c.files) >= 3 {
+			ff := map[string]string{}
+			for k, v := range c.files {
+				ff[k] = string(v)
+			}
+			ctx.Cov.Sample(map[string]any{"files": ff, "verdict": b1.Verdict()})
+		}
+		if !b1.Accepted() {
+			ctx.Violate(Violation{Kind: "wrong-output", Site: "INCLUDE", What: "moving complete directives into included files makes an accepted document rejected: " + b1.Verdict(), Input: in, Observed: b1.Verdict(), Expected: "accepted", Signature: "cut-rejected:" + firstWords(b1.Verdict(), 4)})
+			continue
+		}
+		if string(b1.JSON) != string(b0.JSON) {
+			ctx.Violate(Violation{Kind: "wrong-output", Site: "INCLUDE", What: "moving complete directives into included files changes the catalog: " + firstDiff(b0.JSON, b1.JSON), Input: in, Signature: "cut-catalog"})
+		}
+	}
+	// faulty include targets must be rejected with a diagnostic
+	for _, p := range includeGraphs(r)[:13] {
+		res := RunProject(p, false)
+		cases++
+		in := projectInput(p)
+		in["op"] = "project"
+		root := string(p.Files[p.Root])
+		mustReject := strings.Contains(root, "missing") || strings.Contains(root, "INCLUDE dir") || strings.Contains(root, "INCLUDE root.jst") || strings.Contains(root, "INCLUDE\n") || strings.Contains(string(p.Files["a.jst"]), "JSIGHT") || strings.Contains(string(p.Files["b.jst"]), "INCLUDE a.jst")
+		if mustReject && res.Err == nil && res.Panic == "" {
+			ctx.Violate(Violation{Kind: "wrong-output", Site: "INCLUDE", What: "a faulty include (cycle / missing / directory / JSIGHT inside / no name) is accepted", Input: in, Signature: "include-fault-accepted"})
+		}
+	}
+	ctx.Cov.Component("cut documents vs uncut documents; faulty include targets (specification on the implementation)", cases, len(ctx.Violations), "")
+}
